@@ -66,6 +66,7 @@ fn run_once(p: &Program, prefix: &[usize]) -> RunResult {
         let ops = p.threads[t].clone();
         let roots = base.roots.clone();
         let shared = base.shared.clone();
+        let set_times = base.set_times.clone();
         let sched2 = sched.clone();
         let results2 = results.clone();
         joins.push(std::thread::spawn(move || {
@@ -83,6 +84,7 @@ fn run_once(p: &Program, prefix: &[usize]) -> RunResult {
             let mut c = Case::new("t", true);
             c.roots = roots;
             c.shared = shared;
+            c.set_times = set_times;
             let mut out = vec![];
             for (i, l) in ops.iter().enumerate() {
                 let toks: Vec<&str> = l.split(' ').collect();
@@ -165,6 +167,7 @@ fn sequential(p: &Program, out: &mut BTreeSet<String>) {
                     let mut c = Case::new("s", true);
                     c.roots = base.roots.clone();
                     c.shared = base.shared.clone();
+                    c.set_times = base.set_times.clone();
                     c
                 })
                 .collect();
@@ -212,11 +215,13 @@ fn run_program(p: &Program) {
                 let ops = p.threads[t].clone();
                 let roots = base.roots.clone();
                 let shared = base.shared.clone();
+                let set_times = base.set_times.clone();
                 let b = barrier.clone();
                 joins.push(std::thread::spawn(move || {
                     let mut c = Case::new("t", true);
                     c.roots = roots;
                     c.shared = shared;
+                    c.set_times = set_times;
                     b.wait();
                     let mut out = vec![];
                     for (i, l) in ops.iter().enumerate() {
